@@ -376,7 +376,11 @@ object Service {
 			"foo/v1/d.j5s": `package foo.v1
 
 object Listed {
+  | Listed has fields with validation and list rules.
+  | Second line of the description.
+
   field status enum:Kind {
+    | the status
     listRules.filtering.filterable = true
   }
   field inlineStatus enum {
@@ -386,6 +390,7 @@ object Listed {
     listRules.filtering.filterable = true
   }
   field name string {
+    | the name
     rules.minLength = 1
     listRules.searching.searchable = true
   }
@@ -415,7 +420,8 @@ object Listed {
 }
 
 enum Wide {
-  option A1
+  | Wide has six options.
+  option A1 | the first
   option A2
   option A3
   option A4
@@ -424,6 +430,8 @@ enum Wide {
 }
 
 enum Shade {
+  | Shades with info keys that differ in letter case only.
+
   info hex {
     label = "hex"
   }
@@ -447,6 +455,7 @@ enum Shade {
     info.Zone = "z"
   }
   option BLUE {
+    | the blue one
     info.Zone = "y"
     info.HEX = "#0000FF"
     info.hex = "0000ff"
